@@ -748,7 +748,8 @@ def adapt_items(ex, st, it):
                             yield from rec2(st3, k + 1, acc)
             yield from rec2(st2, 0, [])
         return
-    raise MirUnsupported("items of %r" % (it,))
+    for st2, items, fin in _drain(ex, st, it):   # any other modelled iterator: pulled lazily to its end
+        yield st2, items
 
 
 def m_collect_vec(ex, st, callee, args, dest_ty):
@@ -900,7 +901,7 @@ VALUE_MODELS += [
 # below is pulled lazily through iter_next, exactly as std does (closures are the real code, called once per pulled item, in
 # pull order), and every consumer is a loop over iter_next. These entries come last, so a more specific model above wins.
 
-ITER_T = (r"(?:std::slice::Iter(?:Mut)?<.*>|std::vec::IntoIter<.*>|std::array::IntoIter<.*>|std::collections::btree_map::(?:Iter|Keys|Values)<.*>|"
+ITER_T = (r"(?:std::ops::Range(?:Inclusive)?<.*>|std::slice::Iter(?:Mut)?<.*>|std::vec::IntoIter<.*>|std::array::IntoIter<.*>|std::collections::btree_map::(?:Iter|Keys|Values)<.*>|"
           r"(?:std::iter::)?(?:Filter|Map|FilterMap|MapWhile|TakeWhile|SkipWhile|Take|Skip|Chain|Rev|Cloned|Copied|Zip|Enumerate|Flatten|FlatMap|Once|Peekable|Inspect)<.*>)")
 _LAZY_KINDS = ("filter", "map", "filter_map", "map_while", "take_while", "skip_while", "inspect", "flat_map")
 
@@ -1075,6 +1076,14 @@ def lazy_next(ex, st, it):
                 else:
                     yield from lazy_next(ex, st2, Opaque("Lazy", "flatten", (in2, _sub_iter(ex, st2, r.alts["Some"][0]))))
             return
+        if kind == "rev_range":
+            lo, hi = it.info
+            for st2 in ex.branch(st, lo.e < hi.e):
+                last = Sc(z3.simplify(hi.e - 1), hi.ty)
+                yield st2, Opaque("Lazy", "rev_range", (lo, last)), some(last)
+            for st2 in ex.branch(st, lo.e >= hi.e):
+                yield st2, it, none()
+            return
         if kind == "rev":
             base, k = it.info   # k items already taken from the back
             vec = ex.read(st, base.cell, base.projs)
@@ -1135,6 +1144,9 @@ def m_lazy_adapt(ex, st, callee, args, dest_ty):
     elif kind == "flatten":
         yield st, Opaque("Lazy", "flatten", (it, None))
     elif kind == "rev":
+        if isinstance(it, Adt) and len(it.fields) == 2 and all(isinstance(f, Sc) for f in it.fields):
+            yield st, Opaque("Lazy", "rev_range", (it.fields[0], it.fields[1]))
+            return
         if not (isinstance(it, Opaque) and it.sort == "SliceIter" and it.e is None and it.info[1] == 0):
             raise MirUnsupported("rev() of %r" % (it,))
         yield st, Opaque("Lazy", "rev", (it.info[0], 0))
